@@ -270,12 +270,29 @@ class Checker:
         self.rrt = model.cls(MOD, 'RRTStar')
         self.tree = model.cls(MOD, 'R6Tree')
         self.node = model.cls(MOD, 'PathNode')
+        self._flat = {}
 
     def _m(self, ci, name):
+        """the method with the class's private helpers inlined (AST partial evaluation; structure only)"""
         f = ci.methods.get(name)
         if f is None:
             raise AnalysisError('anchor vanished: %s.%s' % (ci.name, name))
-        return f
+        key = (ci.name, name)
+        if key in self._flat:
+            return self._flat[key]
+        import copy
+        from ..engine import peval
+        flat = peval.flatten({n_: f_.node for n_, f_ in ci.methods.items()}, f.node, depth=2, impure=True)
+        ast.fix_missing_locations(flat)
+        g = copy.copy(f)
+        if ast.dump(flat) != ast.dump(f.node):
+            g.node = flat
+            for parent in ast.walk(flat):
+                for ch in ast.iter_child_nodes(parent):
+                    f.module.parents[ch] = parent
+            f.module.parents[flat] = f.module.parents.get(f.node)
+        self._flat[key] = g
+        return g
 
     def growth(self):
         rep = self.rep
@@ -408,26 +425,39 @@ class Checker:
             rep.ob('R16.6', fi, 'while ' + src(t), cur is not None, 'walk does not continue until the root (`node is not None`)', line=w.lineno)
             if cur is None:
                 continue
-            start = [n for n in body if isinstance(n, ast.Assign) and src(n.targets[0]) == cur and n.lineno < w.lineno]
+            k_w = body.index(w)
+            before, after = body[:k_w], body[k_w + 1:]            # by position in the body (inlined helpers keep their own line numbers)
+            start = [n for n in before if isinstance(n, ast.Assign) and src(n.targets[0]) == cur]
             ok = bool(start) and 'nearestNeighbors(PathNode(%s), 1)[0].object' % goal in src(start[-1].value)
             rep.ob('R16.6', fi, 'walk starts at the tree node nearest the goal', ok,
                    'start node is %s' % (src(start[-1].value) if start else 'undefined'), line=w.lineno)
             ins = [c for s in w.body for c in ast.walk(s) if isinstance(c, ast.Call) and isinstance(c.func, ast.Attribute) and c.func.attr in ('insert', 'append')]
             lst = src(ins[0].func.value) if ins else None
-            ok = len(ins) == 1 and ins[0].func.attr == 'insert' and len(ins[0].args) == 2 and norm_text(resolved_in_block(w.body, ins[0].args[0])) == '0' \
-                and norm_text(resolved_in_block(w.body, ins[0].args[1])) == cur + '.getPosition()'
-            rep.ob('R16.6', fi, 'prepend current position', ok, 'loop body does not prepend exactly the current node\'s position once', line=w.lineno)
+            # root-to-node order: each position is prepended, or appended and the list reversed exactly once after the walk
+            revs = [k_ for k_, s_ in enumerate(after) if (isinstance(s_, ast.Expr) and isinstance(s_.value, ast.Call) and norm_text(s_.value.func) == '%s.reverse' % lst and not s_.value.args)
+                    or (isinstance(s_, ast.Assign) and src(s_.targets[0]) == lst and norm_text(s_.value) in ('%s[::-1]' % lst, 'list(reversed(%s))' % lst))]
+            apps_goal = [k_ for k_, s_ in enumerate(after) if isinstance(s_, ast.Expr) and isinstance(s_.value, ast.Call) and norm_text(s_.value.func) == '%s.append' % lst]
+            prepend = len(ins) == 1 and ins[0].func.attr == 'insert' and len(ins[0].args) == 2 and norm_text(resolved_in_block(w.body, ins[0].args[0])) == '0' \
+                and norm_text(resolved_in_block(w.body, ins[0].args[1])) == cur + '.getPosition()' and not revs
+            append_rev = len(ins) == 1 and ins[0].func.attr == 'append' and len(ins[0].args) == 1 \
+                and norm_text(resolved_in_block(w.body, ins[0].args[0])) == cur + '.getPosition()' and len(revs) == 1 and (not apps_goal or revs[0] < apps_goal[0])
+            rep.ob('R16.6', fi, 'prepend current position', prepend or append_rev,
+                   'the walk does not record exactly the current node\'s position once per step in root-to-node order (prepend, or append and one reverse before the goal)', line=w.lineno)
             adv = [s for s in w.body if isinstance(s, ast.Assign) and src(s.targets[0]) == cur]
-            ok = len(adv) == 1 and src(adv[0].value) == cur + '.getParent()' and (not ins or adv[0].lineno > ins[0].lineno)
+            order_ok = True
+            if ins and adv:
+                pos = {id(s_): k_ for k_, s_ in enumerate(w.body)}
+                rec_stmt = [s_ for s_ in w.body if any(c is ins[0] for c in ast.walk(s_))]
+                order_ok = bool(rec_stmt) and pos[id(adv[0])] > pos[id(rec_stmt[0])]
+            ok = len(adv) == 1 and src(adv[0].value) == cur + '.getParent()' and order_ok
             rep.ob('R16.6', fi, 'advance by getParent() after recording', ok, 'walk does not advance along parent links after recording the node', line=w.lineno)
-            after = [n for n in body if n.lineno > w.end_lineno]
             app = [c for s in after for c in ast.walk(s) if isinstance(c, ast.Call) and isinstance(c.func, ast.Attribute) and c.func.attr == 'append']
             ok = len(app) == 1 and src(app[0].func.value) == lst and src(app[0].args[0]) == goal
             rep.ob('R16.6', fi, 'goal appended last', ok, 'goal is not appended exactly once after the walk')
             rets = [n for n in after if isinstance(n, ast.Return)]
             rep.ob('R16.6', fi, 'returns the walked list', bool(rets) and src(rets[0].value) == lst, 'returned value is not the walked list')
             # tree generated before extraction, once
-            gens = [n for n in body if n.lineno < w.lineno and isinstance(n, ast.Expr) and isinstance(n.value, ast.Call)]
+            gens = [n for n in before if isinstance(n, ast.Expr) and isinstance(n.value, ast.Call)]
             rep.ob('R16.6', fi, 'tree generated once before extraction', len(gens) == 1,
                    '%d generation calls before the walk' % len(gens))
         # accessors
